@@ -527,6 +527,32 @@ func runC14(rc *RunCtx) {
 	rc.Nontrivial = true
 	rc.Desc = map[string]any{"client": sc.Kind.String(), "callers": len(sc.Callers), "calls": nops, "close_at": sc.CloseAt.String(), "connect_at": sc.ConnectAt.String(), "device_think_max": sc.DevDelay.String()}
 	rc.Probe(fmt.Sprintf("%s|callers=%d|close=%v|connect=%v", sc.Kind, len(sc.Callers), sc.CloseAt >= 0, sc.ConnectAt >= 0))
+	if !rc.Race {
+		nfail, nctx := 0, 0
+		for _, r := range out.Recs {
+			if r.Err != nil {
+				nfail++
+				if errors.Is(r.Err, context.DeadlineExceeded) || errors.Is(r.Err, context.Canceled) {
+					nctx++
+				}
+			}
+		}
+		if sc.CloseAt >= 0 {
+			rc.Fault("close_while_callers_active", nfail > 0) // fired: some call met the closed client
+		}
+		if sc.ConnectAt >= 0 {
+			rc.Fault("connect_while_callers_active", true)
+		}
+		if sc.Cancels {
+			rc.Fault("context_expiry_inside_an_exchange", nctx > 0)
+		}
+		if sc.Flusher {
+			rc.Fault("port_flush_discards_buffered_bytes", true)
+		}
+		if sc.DevDelay > 0 {
+			rc.Fault("device_think_time", true)
+		}
+	}
 	base := fmt.Sprintf("client=%s", sc.Kind)
 	for _, p := range out.Panics {
 		rc.Violate("panic", base+"|task="+taskKind(p.Task), "panic in %s: %s\n%s", p.Task, p.Value, firstRepoFrames(p.Stack))
